@@ -55,6 +55,9 @@ def names_scenario(sid, hist, rng, lag, collide=False):
             else:
                 steps.append({"k": "delete", "name": spell[h["c"]]})
             cur[h["c"]] = None
+        elif h["k"] == "wait":      # (directed histories: a conflict that lasts)
+            steps.append({"k": "sleep", "ms": 40000})
+            continue
         else:
             continue
         if not lag:
@@ -120,6 +123,44 @@ def health_part(v, tier, rng, wd, replay_sc=None):
     return states + tv.distinct, trans + tv.generated, judged, len(tl) - nrej
 
 
+def queue_part(tier, seed, wd):
+    """the substrate of 'retried deliveries': the REAL pkg/syncqueue against SyncQueue.tla (every handler invocation with the failure count the
+    queue reports, folded through the model).  A mismatch means the models of C10 / C11 rest on a wrong picture of the queue: infrastructure
+    error, not a verdict.  Documented by TLC on the way: a bounded requeue (MaxRequeueTimes = 3) goes through AddAfter, which does not count -
+    the implementation retries a refused version every 5 s for ever ('GivesUp' refuted for it, verified for a counting queue)"""
+    rng = random.Random(seed * 13 + 5)
+    mc = vlib.tlc("dataplane", "SyncQueue", "SyncQueue.cfg", workers=4, timeout=300)
+    if mc.violation:
+        raise Infra("SyncQueue.tla violates %s" % mc.violated())
+    states, trans = mc.distinct, mc.generated
+    for variant, expect in (("addafter", True), ("counted", False)):
+        g = vlib.tlc("dataplane", "SyncQueue", "SyncQueueGiveUp.cfg", workers=2, timeout=300, consts={"Variant": '"%s"' % variant})
+        if bool(g.violation) != expect:
+            raise Infra("SyncQueue.tla GivesUp, variant %s: unexpected result %s" % (variant, g.violated()))
+        states, trans = states + g.distinct, trans + g.generated
+    scs = []
+    for i in range(60 if tier == "quick" else 600):
+        items = [{"id": "i%d" % (k + 1), "at": rng.choice([0, 0, 100, 3000, 7000]), "script": [rng.choice(["ok", "err", "after0", "after3", "after3", "err"]) for _ in range(rng.randint(0, 9))]}
+                 for k in range(rng.randint(1, 3))]
+        items.sort(key=lambda x: x["at"])
+        scs.append({"id": i + 1, "items": items})
+    scs += [{"id": 900, "items": [{"id": "i1", "at": 0, "script": ["after3"] * 12}]}, {"id": 901, "items": [{"id": "i1", "at": 0, "script": ["err"] * 6}]},
+            {"id": 902, "items": [{"id": "i1", "at": 0, "script": ["err", "err", "after3", "after3", "after3", "after3", "err", "after0", "after0"]}]}]
+    binp = os.path.join(wd, "sqh.test")
+    vlib.go_test_build("./sqh", binp)
+    traces, crashed = vlib.run_test_driver(binp, scs, wd, timeout=900, name="sq")
+    if crashed:
+        raise Infra("sqh crashed: " + list(crashed.values())[0][-800:])
+    tl = [{"id": int(sid), "events": t["events"]} for sid, t in traces.items()]
+    tr_p = os.path.join(wd, "sq.ndjson")
+    vlib.write_ndjson(tr_p, tl)
+    tv = vlib.tlc("dataplane", "TraceSyncQueue", "TraceSyncQueue.cfg", workers=4, timeout=600, consts={"TraceFile": '"%s"' % tr_p})
+    rej = [l for l in tv.out.splitlines() if l.startswith('<<"REJECT"')]
+    if rej:
+        raise Infra("the real work queue does not behave like SyncQueue.tla (the model of retried deliveries under C10 / C11): %s" % rej[:3])
+    return states + tv.distinct, trans + tv.generated, sum(1 for t in tl for e in t["events"] if e["k"] == "call")
+
+
 def directed_collisions():
     A = lambda c, *al: {"k": "apply", "c": c, "al": list(al)}
     D = lambda c: {"k": "delete", "c": c, "al": []}
@@ -128,6 +169,9 @@ def directed_collisions():
                 [A("a", "x"), A("b", "y"), A("a", "y"), A("a"), D("a")], [A("a", "x"), A("b"), A("b", "x"), D("b")], [A("a", "x"), A("b", "y"), A("a", "y"), A("b", "x"), D("a")],
                 [A("a", "x"), A("b", "y"), A("a", "y"), D("a"), A("c", "x")], [A("c", "y"), A("a", "x"), A("c", "x"), A("c"), D("a")],      # (the last one: the open finding StaleRequeue)
                 [A("a", "x", "y"), A("b"), A("b", "y"), A("a", "x"), D("b"), A("c", "y")]]
+    # a conflict that LASTS (40 s: eight retries) before it goes away: the refused version is still retried and applied
+    W = {"k": "wait", "c": "", "al": []}
+    directed += [[A("a", "x"), A("b", "y"), A("a", "y"), W, D("b")], [A("a", "x"), A("b"), A("b", "x"), W, A("a")]]
     return directed
 
 
@@ -158,8 +202,15 @@ def run(prop, tier, replay):
         if replay and json.load(open(replay)).get("kind") == "life":
             health_part(v, tier, rng, wd, replay_sc=json.load(open(replay))["scenario"])
             return v.finish()
+        qcalls = 0
+        qerr = None
         if prop == "C11" and not replay:
             hstates, htrans, hjudged, htraces = health_part(v, tier, rng, wd)
+            try:
+                qs, qt, qcalls = queue_part(tier, seed, wd)
+                hstates, htrans = hstates + qs, htrans + qt
+            except Infra as e:
+                qerr = str(e)      # (reported at the end, and only if the gateway itself showed no violation)
         if replay:
             rp = json.load(open(replay))
             scs = [rp["scenario"]]
@@ -260,6 +311,7 @@ def run(prop, tier, replay):
             ever = {}
             vers = {}
             verstls = {}
+            named = {}          # base cluster -> every name any of its versions has named so far
             nobs = sum(1 for e in t["events"] if e["k"] == "obs")
             for e in t["events"]:
                 if e["k"] == "apply":
@@ -267,6 +319,7 @@ def run(prop, tier, replay):
                     ever.setdefault(o["name"], set()).update([bm[o["name"]]] + [bm[a] for a in o["aliases"]])
                     vers.setdefault(o["name"], []).append(sorted(set([bm[o["name"]]] + [bm[a] for a in o["aliases"]])))
                     verstls.setdefault(o["name"], []).append(o["tls"])
+                    named.setdefault(bm[o["name"]], set()).update([bm[o["name"]]] + [bm[a] for a in o["aliases"]])
                 elif e["k"] == "delete":
                     ever[e["name"]] = set()
                 if e["k"] == "mid":
@@ -279,6 +332,9 @@ def run(prop, tier, replay):
                 ce["ever"] = {c: sorted(ever.get(c, ())) for c in e["latest"]}
                 ce["vers"] = {c: list(vers.get(c, [])) for c in e["latest"]}
                 ce["verstls"] = {c: list(verstls.get(c, [])) for c in e["latest"]}
+                # version k of c named something a version of ANOTHER cluster named (earlier or later: the informer hands the controller all pending
+                # versions of one object before the next object's): only such a version can have been refused and requeued
+                ce["versconf"] = {c: [any(set(vn) & ns for c2, ns in named.items() if c2 != bm[c]) for vn in vers.get(c, [])] for c in e["latest"]}
                 ce["settled"] = sum(1 for x in evs if x["k"] == "obs") == nobs - 1        # the last observation: 30 s after the last operation
                 evs.append(ce)
             kind = kinds.get(sid, "names")
@@ -317,7 +373,7 @@ def run(prop, tier, replay):
         rc = v.finish()
         obs = [e for t in tl for e in t["events"] if e["k"] == "obs"]
         cov = {"states": states + tv.distinct + hstates, "transitions": trans + tv.generated + htrans, "traces_validated_against_impl": len(tl) - len(rejected) + htraces,
-               "endpoint_life_observations_real_health_checks": hjudged,
+               "endpoint_life_observations_real_health_checks": hjudged, "work_queue_handler_invocations_validated": qcalls,
                "samples": [[{k: x[k] for k in ("k",) + (("resolve", "latest") if x["k"] == "obs" else ())} for x in tl[0]["events"][:4]]],
                "evaluations": len(obs) + (sum(1 for t in tl for e in t["events"] if e["k"] == "mid") if prop == "C10" else 0),
                "table_snapshots_after_each_write": sum(1 for t in tl for e in t["events"] if e["k"] == "mid"), "distinct_nontrivial": len({vlib.canon(e) for e in obs}),
@@ -329,6 +385,8 @@ def run(prop, tier, replay):
                             ["objects are admission-valid (no name collision with another cluster's current object)",
                              "C10 histories are settled (the worker catches up after every operation); lagging-worker histories are judged by C11's differential",
                              "endpoints are unreachable loopback ports: health never turns ready (readiness is C03's subject)"])
+        if rc == 0 and qerr:
+            raise Infra(qerr)
         return rc
     finally:
         shutil.rmtree(wd, ignore_errors=True)
